@@ -1,6 +1,6 @@
 (* C02 -- property theorems only. *)
 From Coq Require Import Reals.
-From WNTRV Require Import Lib.ExprR Gen.Formulas Lib.Spline C02.Model C02.Proofs.
+From WNTRV Require Import Lib.ExprR Gen.Formulas Lib.Spline Lib.SplineMono Lib.SplineStrict C02.Model C02.Proofs C02.PumpMono.
 Local Open Scope R_scope.
 
 Theorem C02_closed_zero_flow : forall q tol, Rabs (closed_row q) < tol -> Rabs q < tol.
@@ -15,6 +15,15 @@ Theorem C02_pump_on_curve : forall A B C q hs he,
   (C <= 1 -> c_pump_q2 < q) -> (1 < C -> q_bar B C < q) ->
   (head_pump_row A B C q hs he = 0 <-> he - hs = A - B * pw q C).
 Proof. exact pump_on_curve. Qed.
+(* for EVERY flow -- linear extension, smoothing cubic, curve -- the head gain the row assigns to a head pump is strictly decreasing in the
+   flow (so the pump law h_start - h_end = - gain q is strictly increasing: the hypothesis of C03_unique_flows); exponent > 1 unconditionally,
+   exponent <= 1 when the smoothing cubic lies in the (mirrored) Fritsch-Carlson box, which coqc proves per generated pump *)
+Theorem C02_head_row_is_gain : forall A B C q hs he, head_pump_row A B C q hs he = head_gain A B C q - he + hs.
+Proof. exact head_row_gain. Qed.
+Theorem C02_head_gain_strict_hi : forall A B C p q, 1 < C -> 0 < B -> p < q -> head_gain A B C q < head_gain A B C p.
+Proof. exact head_gain_strict_hi. Qed.
+Theorem C02_head_gain_strict_lo : forall A B C p q, 0 < C <= 1 -> 0 < B -> pump_box A B C -> p < q -> head_gain A B C q < head_gain A B C p.
+Proof. exact head_gain_strict_lo. Qed.
 Theorem C02_power_pump_law : forall P q hs he, power_pump_row P q hs he = 0 <-> P = grav * 1000 * q * (he - hs).
 Proof. exact power_pump_law. Qed.
 Theorem C02_pump_coeffs_1pt : forall Q H, 0 < Q ->
@@ -34,5 +43,7 @@ Proof. exact tcv_law. Qed.
 Print Assumptions C02_hw_law.
 Print Assumptions C02_hw_strict_mono.
 Print Assumptions C02_pump_on_curve.
+Print Assumptions C02_head_gain_strict_hi.
+Print Assumptions C02_head_gain_strict_lo.
 Print Assumptions C02_pump_coeffs_2pt.
 Print Assumptions C02_tcv_law.
